@@ -1,2 +1,253 @@
+/* jwe.* operations: lib/jwe.c through the public API, with a RAND_bytes tape */
 #include "hx.h"
-const op_t ops_jwe[] = { { NULL, NULL } };
+#include <jose/jwe.h>
+#include <jose/jwk.h>
+#include <jose/io.h>
+#include <jose/b64.h>
+#include <openssl/rand.h>
+#include <dlfcn.h>
+
+/* ---- RAND_bytes tape: the library's calls to RAND_bytes resolve to this definition ---- */
+static uint8_t *tape = NULL;
+static size_t tape_len = 0, tape_pos = 0;
+size_t hx_rand_calls = 0;
+
+int
+RAND_bytes(unsigned char *buf, int num)
+{
+    hx_rand_calls++;
+    if (tape && num >= 0 && tape_pos + (size_t) num <= tape_len) {
+        memcpy(buf, tape + tape_pos, num);
+        tape_pos += num;
+        return 1;
+    }
+    return RAND_priv_bytes(buf, num);
+}
+
+void
+hx_tape_set(json_t *args)
+{
+    free(tape);
+    tape = hx_arg_hex(args, "rand", &tape_len);
+    tape_pos = 0;
+    hx_rand_calls = 0;
+}
+
+void
+hx_tape_clear(void)
+{
+    free(tape);
+    tape = NULL;
+    tape_len = tape_pos = 0;
+}
+
+static json_t *
+op_enc_jwk(json_t *args)
+{
+    json_t *jwe = json_deep_copy(hx_arg(args, "jwe"));
+    json_t *rcp = json_deep_copy(hx_arg(args, "rcp"));
+    json_t *cek = json_deep_copy(hx_arg(args, "cek"));
+    bool ok;
+    json_t *res;
+    hx_tape_set(args);
+    ok = jose_jwe_enc_jwk(NULL, jwe, rcp, hx_arg(args, "jwk"), cek);
+    hx_tape_clear();
+    res = json_pack("{s:b}", "ok", ok);
+    if (ok) {
+        json_object_set(res, "jwe", jwe);
+        json_object_set(res, "cek", cek);
+    }
+    json_decref(jwe);
+    json_decref(rcp);
+    json_decref(cek);
+    return res;
+}
+
+static json_t *
+op_enc_cek(json_t *args)
+{
+    json_t *jwe = json_deep_copy(hx_arg(args, "jwe"));
+    size_t ptl = 0;
+    uint8_t *pt = hx_arg_hex(args, "pt", &ptl);
+    bool ok;
+    json_t *res;
+    hx_tape_set(args);
+    ok = jose_jwe_enc_cek(NULL, jwe, hx_arg(args, "cek"), pt ? pt : (uint8_t *) "", ptl);
+    hx_tape_clear();
+    res = json_pack("{s:b}", "ok", ok);
+    if (ok)
+        json_object_set(res, "jwe", jwe);
+    json_decref(jwe);
+    free(pt);
+    return res;
+}
+
+static json_t *
+op_enc(json_t *args)
+{
+    json_t *jwe = json_deep_copy(hx_arg(args, "jwe"));
+    json_t *rcp = json_deep_copy(hx_arg(args, "rcp"));
+    size_t ptl = 0;
+    uint8_t *pt = hx_arg_hex(args, "pt", &ptl);
+    bool ok;
+    json_t *res;
+    hx_tape_set(args);
+    ok = jose_jwe_enc(NULL, jwe, rcp, hx_arg(args, "jwk"), pt ? pt : (uint8_t *) "", ptl);
+    hx_tape_clear();
+    res = json_pack("{s:b}", "ok", ok);
+    if (ok)
+        json_object_set(res, "jwe", jwe);
+    json_decref(jwe);
+    json_decref(rcp);
+    free(pt);
+    return res;
+}
+
+/* jwe.enc_cek_io {jwe, cek, feeds, rand}: streamed encryption; ciphertext collected by a malloc sink */
+static json_t *
+op_enc_cek_io(json_t *args)
+{
+    json_t *jwe = json_deep_copy(hx_arg(args, "jwe"));
+    json_t *feeds = hx_arg(args, "feeds");
+    void *ct = NULL;
+    size_t ctl = 0;
+    jose_io_t *o = jose_io_malloc(NULL, &ct, &ctl);
+    jose_io_t *io;
+    bool ok;
+    json_t *res;
+    size_t i;
+    json_t *f;
+    hx_tape_set(args);
+    io = jose_jwe_enc_cek_io(NULL, jwe, hx_arg(args, "cek"), o);
+    ok = io != NULL;
+    if (io) {
+        json_array_foreach(feeds, i, f) {
+            size_t len = 0;
+            uint8_t *b = hx_unhex(json_string_value(f), &len);
+            ok = io->feed(io, b, len);
+            free(b);
+            if (!ok)
+                break;
+        }
+        ok = ok && io->done(io);
+    }
+    hx_tape_clear();
+    res = json_pack("{s:b}", "ok", ok);
+    if (ok) {
+        json_object_set_new(jwe, "ciphertext", jose_b64_enc(ct ? ct : "", ctl));
+        json_object_set(res, "jwe", jwe);
+    }
+    jose_io_decref(io);
+    jose_io_decref(o);
+    json_decref(jwe);
+    return res;
+}
+
+static json_t *
+op_dec_jwk(json_t *args)
+{
+    json_t *r;
+    hx_tape_set(args);
+    r = hx_opt(jose_jwe_dec_jwk(NULL, hx_arg(args, "jwe"), hx_arg(args, "rcp"), hx_arg(args, "jwk")));
+    hx_tape_clear();
+    return r;
+}
+
+static json_t *
+op_dec_cek(json_t *args)
+{
+    size_t ptl = 0;
+    void *pt = jose_jwe_dec_cek(NULL, hx_arg(args, "jwe"), hx_arg(args, "cek"), &ptl);
+    json_t *res = json_pack("{s:b}", "ok", pt != NULL);
+    if (pt) {
+        json_object_set_new(res, "pt", hx_hex(pt, ptl));
+        free(pt);
+    }
+    return res;
+}
+
+static json_t *
+op_dec(json_t *args)
+{
+    size_t ptl = 0;
+    void *pt;
+    json_t *res;
+    hx_tape_set(args);
+    pt = jose_jwe_dec(NULL, hx_arg(args, "jwe"), hx_arg(args, "rcp"), hx_arg(args, "jwk"), &ptl);
+    hx_tape_clear();
+    res = json_pack("{s:b}", "ok", pt != NULL);
+    if (pt) {
+        json_object_set_new(res, "pt", hx_hex(pt, ptl));
+        free(pt);
+    }
+    return res;
+}
+
+/* jwe.dec_cek_io {jwe, cek, feeds}: the raw ciphertext bytes are streamed in the given chunks */
+static json_t *
+op_dec_cek_io(json_t *args)
+{
+    json_t *feeds = hx_arg(args, "feeds");
+    void *pt = NULL;
+    size_t ptl = 0;
+    jose_io_t *o = jose_io_malloc(NULL, &pt, &ptl);
+    jose_io_t *io = jose_jwe_dec_cek_io(NULL, hx_arg(args, "jwe"), hx_arg(args, "cek"), o);
+    bool ok = io != NULL;
+    json_t *res;
+    size_t i;
+    json_t *f;
+    if (io) {
+        json_array_foreach(feeds, i, f) {
+            size_t len = 0;
+            uint8_t *b = hx_unhex(json_string_value(f), &len);
+            ok = io->feed(io, b, len);
+            free(b);
+            if (!ok)
+                break;
+        }
+        ok = ok && io->done(io);
+    }
+    res = json_pack("{s:b}", "ok", ok);
+    if (ok)
+        json_object_set_new(res, "pt", hx_hex(pt ? pt : "", ptl));
+    jose_io_decref(io);
+    jose_io_decref(o);
+    return res;
+}
+
+/* jwk.gen {jwk, rand} */
+static json_t *
+op_gen(json_t *args)
+{
+    json_t *jwk = json_deep_copy(hx_arg(args, "jwk"));
+    bool ok;
+    json_t *res;
+    hx_tape_set(args);
+    ok = jose_jwk_gen(NULL, jwk);
+    res = json_pack("{s:b,s:I}", "ok", ok, "rand_calls", (json_int_t) hx_rand_calls);
+    hx_tape_clear();
+    if (ok && jwk)
+        json_object_set(res, "jwk", jwk);
+    json_decref(jwk);
+    return res;
+}
+
+static json_t *
+op_exc(json_t *args)
+{
+    return hx_opt(jose_jwk_exc(NULL, hx_arg(args, "prv"), hx_arg(args, "pub")));
+}
+
+const op_t ops_jwe[] = {
+    { "jwe.enc_jwk", op_enc_jwk },
+    { "jwe.enc_cek", op_enc_cek },
+    { "jwe.enc_cek_io", op_enc_cek_io },
+    { "jwe.enc", op_enc },
+    { "jwe.dec_jwk", op_dec_jwk },
+    { "jwe.dec_cek", op_dec_cek },
+    { "jwe.dec_cek_io", op_dec_cek_io },
+    { "jwe.dec", op_dec },
+    { "jwk.gen", op_gen },
+    { "jwk.exc", op_exc },
+    { NULL, NULL }
+};
